@@ -79,11 +79,18 @@ pub fn bfs<S: System>(
             break;
         }
         stats.frontier_sizes.push(frontier.len());
-        // expand every frontier state in parallel
-        let results: Vec<Vec<(Vec<S::Ev>, (u64, u64), bool, String)>> = frontier
+        // expand every frontier state in parallel; a worker only hands back the successors whose key was not seen
+        // on an earlier level (the histories of the others would only cost memory), plus outcome counts
+        let seen_ref = &seen;
+        type Succ<E> = (Vec<E>, (u64, u64), bool);
+        let results: Vec<(Vec<Succ<S::Ev>>, std::collections::BTreeMap<String, u64>, u64)> = frontier
             .par_iter()
             .map(|hist| {
                 let mut out = vec![];
+                let mut oc: std::collections::BTreeMap<String, u64> = Default::default();
+                if ctx.saturated() {
+                    return (out, oc, 0);
+                }
                 // replay once to learn the enabled set
                 let mut s = mk();
                 for e in hist {
@@ -91,6 +98,7 @@ pub fn bfs<S: System>(
                 }
                 let evs = s.enabled();
                 let mut steps = hist.len() as u64;
+                let mut ntrans = 0u64;
                 for (i, ev) in evs.iter().enumerate() {
                     // the first child can reuse the replayed system, the others replay again
                     let mut t = if i == 0 {
@@ -105,6 +113,7 @@ pub fn bfs<S: System>(
                     };
                     let vs = t.step(ev);
                     steps += 1;
+                    ntrans += 1;
                     let mut h2 = hist.clone();
                     h2.push(ev.clone());
                     for v in vs {
@@ -115,17 +124,23 @@ pub fn bfs<S: System>(
                             h2.len(),
                         );
                     }
-                    out.push((h2, hash_key(&t.key()), t.alive(), t.outcome()));
+                    *oc.entry(t.outcome()).or_insert(0) += 1;
+                    let k = hash_key(&t.key());
+                    if !seen_ref.contains(&k) {
+                        out.push((h2, k, t.alive()));
+                    }
                 }
                 ctx.tick(steps);
-                out
+                (out, oc, ntrans)
             })
             .collect();
         let mut next = vec![];
-        for r in results {
-            for (h, k, alive, oc) in r {
-                stats.transitions += 1;
-                *outcomes.entry(oc).or_insert(0) += 1;
+        for (succ, oc, ntrans) in results {
+            stats.transitions += ntrans;
+            for (k, n) in oc {
+                *outcomes.entry(k).or_insert(0) += n;
+            }
+            for (h, k, alive) in succ {
                 if seen.insert(k) {
                     stats.states += 1;
                     if alive {
